@@ -1185,12 +1185,32 @@ impl MutableArchive {
             return self.write_tables_v3_plus();
         }
 
-        // For V1/V2 archives, use the original simple approach
+        // For V1/V2 archives the tables keep their place as long as no file data was
+        // appended in this session. Appended data starts right behind the old tables,
+        // so a block table that grew would overwrite it: in that case the tables are
+        // written behind the appended data and the header is pointed at them.
         let archive_offset = self.archive.archive_offset();
+        let hash_table_len = self
+            .hash_table
+            .as_ref()
+            .map_or(0, |t| t.entries().len() as u64 * 16);
+        let old_hash_pos = self
+            .updated_hash_table_pos
+            .unwrap_or(header.hash_table_pos as u64);
+        let old_block_pos = self
+            .updated_block_table_pos
+            .unwrap_or(header.block_table_pos as u64);
+        let (hash_table_rel, block_table_rel) = match self.next_file_offset {
+            Some(data_end) => {
+                let hash_rel = data_end - archive_offset;
+                (hash_rel, hash_rel + hash_table_len)
+            }
+            None => (old_hash_pos, old_block_pos),
+        };
 
         // Write hash table
         if let Some(hash_table) = &self.hash_table {
-            let hash_table_pos = archive_offset + header.hash_table_pos as u64;
+            let hash_table_pos = archive_offset + hash_table_rel;
             self.file.seek(SeekFrom::Start(hash_table_pos))?;
 
             // Convert to bytes and encrypt
@@ -1219,7 +1239,7 @@ impl MutableArchive {
 
         // Write block table
         if let Some(block_table) = &self.block_table {
-            let block_table_pos = archive_offset + header.block_table_pos as u64;
+            let block_table_pos = archive_offset + block_table_rel;
             self.file.seek(SeekFrom::Start(block_table_pos))?;
 
             // Convert to bytes and encrypt
@@ -1243,6 +1263,15 @@ impl MutableArchive {
             for &value in &u32_buffer {
                 self.file.write_all(&value.to_le_bytes())?;
             }
+        }
+
+        if self.next_file_offset.is_some() {
+            // Remember where the tables went; files added later in this session must
+            // be placed behind them.
+            let tables_end = self.file.stream_position()?;
+            self.updated_hash_table_pos = Some(hash_table_rel);
+            self.updated_block_table_pos = Some(block_table_rel);
+            self.next_file_offset = Some((tables_end + 511) & !511);
         }
 
         Ok(())
@@ -1591,6 +1620,20 @@ impl MutableArchive {
                 header.block_table_size = new_size;
                 needs_update = true;
             }
+        }
+
+        // The header also has to follow tables that were moved behind appended data,
+        // and the archive size has to cover them.
+        if header.format_version < FormatVersion::V3
+            && let (Some(_), Some(block_pos)) =
+                (self.updated_hash_table_pos, self.updated_block_table_pos)
+        {
+            let block_len = self
+                .block_table
+                .as_ref()
+                .map_or(0, |t| t.entries().len() as u64 * 16);
+            header.archive_size = (block_pos + block_len) as u32;
+            needs_update = true;
         }
 
         if needs_update {
